@@ -44,7 +44,7 @@ var moreSuites = []suite{
 func seqMatters(cipher string) bool { return !strings.Contains(cipher, "gcm") }
 
 var quickKinds = []string{"IGNORE", "DEBUG", "UNIMPLEMENTED", "UNKNOWN192"}
-var thoroughKinds = []string{"IGNORE", "DEBUG", "UNIMPLEMENTED", "UNKNOWN192", "EXTINFO", "SERVICEREQ", "UNASSIGNED", "NEWKEYS"}
+var thoroughKinds = []string{"IGNORE", "DEBUG", "UNIMPLEMENTED", "UNKNOWN192", "EXTINFO", "SERVICEREQ", "UNASSIGNED", "KEXINIT-GARBAGE", "NEWKEYS"}
 
 type tamperCase struct {
 	fam    family
@@ -119,9 +119,9 @@ func kexIndexName(i int) string {
 func TestC30(t *testing.T) {
 	m := mon.New(t, "C30")
 	defer m.Done()
-	m.Rule("Part A (strict, Go<->Go, both always offer kex-strict): per key exchange family the undisturbed plaintext packet sequence of each direction up to and including the first NEWKEYS is recorded (baseline must complete); then every single edit of that sequence is executed by a man-in-the-middle on the byte stream: injection of each packet kind (IGNORE, DEBUG, UNIMPLEMENTED, type 192 with random body; thorough: also EXT_INFO, SERVICE_REQUEST, unassigned numbers, early NEWKEYS, 3 random bodies each) before every packet 0..NEWKEYS, deletion of every packet, duplication of every packet before NEWKEYS, every adjacent swap — both directions, tapped constructors for all families plus the public NewClientConn/NewServerConn. Alarm only if the endpoint receiving the edited direction accepts the key exchange (reads NEWKEYS without error) or its constructor succeeds; failing and freezing (goroutine dumps identical, nobody runnable) are both legal. " +
+	m.Rule("Part A (strict, Go<->Go, both always offer kex-strict): per key exchange family the undisturbed plaintext packet sequence of each direction up to and including the first NEWKEYS is recorded (baseline must complete); then every single edit of that sequence is executed by a man-in-the-middle on the byte stream: injection of each packet kind (IGNORE, DEBUG, UNIMPLEMENTED, type 192 with random body; thorough: also EXT_INFO, SERVICE_REQUEST, unassigned numbers, a garbage KEXINIT, early NEWKEYS, 4 random bodies each, and for curve25519 and dh-gex every message number 1..255) before every packet 0..NEWKEYS, deletion of every packet, duplication of every packet before NEWKEYS, every adjacent swap — both directions, tapped constructors for all families plus the public NewClientConn/NewServerConn. Alarm only if the endpoint receiving the edited direction accepts the key exchange (reads NEWKEYS without error; not judged when NEWKEYS itself was deleted, because ciphertext with a clear length field can be misread as NEWKEYS) or its constructor succeeds; failing and freezing (goroutine dumps identical, nobody runnable) are both legal. " +
 		"Part B (strict): per family x cipher suite a tapped connection with RekeyThreshold 1024 moves data until >= 2 re-exchanges completed; the packet after every NEWKEYS must carry sequence number 0 in the tap (written and read, both endpoints) and on the wire (captured bytes decoded by verif/sshref with keys derived from the tapped K/H/session id; the packet after NEWKEYS is tried with 0 and with the continued number; AES-GCM does not use the number and is counted as unobservable). " +
-		"Part C (strict mode not negotiated): an independent non-strict Peer plays client against a Go server and server against a Go client (first kex, auth, 3 execs, one Peer-initiated and one Go-initiated re-exchange) and injects IGNORE / DEBUG before every one of its own packets (plaintext phase, first protected packet, authentication, channel traffic, inside re-exchanges): the session must complete with correct outputs, Go must not answer UNIMPLEMENTED, sequence numbers must keep counting (Peer's own MAC verification, wire decode, tap). UNIMPLEMENTED is injected at every position too and only recorded. A case is distinct by (family, direction/role, edit, kind, position).")
+		"Part C (strict mode not negotiated): an independent non-strict Peer plays client against a Go server and server against a Go client (first kex, auth, 3 execs, one Peer-initiated and one Go-initiated re-exchange) and injects IGNORE / DEBUG before every one of its own packets (plaintext phase, first protected packet, authentication, channel traffic, inside re-exchanges): the session must complete with correct outputs, Go must not answer UNIMPLEMENTED, sequence numbers must keep counting (Peer's own MAC verification, wire decode, tap). UNIMPLEMENTED is injected at every position too and only recorded. Part D: the same Peer offering strict KEX (it restarts its own counters at 0) in both roles x families x suites must complete the same story with a Go endpoint, and Go's packet after every NEWKEYS must verify with 0 only; IGNORE/DEBUG from the strict peer after the first exchange are recorded, not judged. A case is distinct by (family, direction/role, edit, kind, position).")
 	m.Assume("the tap (ssh.VerifTap, build tag verif) reports the transport's counters faithfully; verif/sshref (packet protection, RFC 4253 key derivation; validated by its own tests against OpenSSH) and the Peer copied from it are correct; the in-memory duplex and the MITM relay bytes faithfully (undisturbed baselines through the same MITM must complete)")
 
 	fams := allFamilies
@@ -131,7 +131,7 @@ func TestC30(t *testing.T) {
 	if m.Thorough() {
 		suites = append(append([]suite(nil), quickSuites...), moreSuites...)
 		kinds = thoroughKinds
-		reps = 3
+		reps = 4
 	}
 
 	// ---------------- Part A: baselines ----------------
@@ -170,6 +170,21 @@ func TestC30(t *testing.T) {
 		untappedFams = fams
 	}
 	cases = append(cases, buildTamperCases(untappedFams, quickKinds, 1, false)...)
+	if m.Thorough() {
+		// "arbitrary packets": every message number 1..255 with a random body at every position, two families
+		for _, f := range []family{allFamilies[0], allFamilies[3]} {
+			for dir := 0; dir < 2; dir++ {
+				for pos := 0; pos < f.L; pos++ {
+					for t := 1; t < 256; t++ {
+						if t == msgNewKeys && pos == f.L-1 {
+							continue
+						}
+						cases = append(cases, tamperCase{f, edit{dir: dir, op: opInject, pos: pos}, fmt.Sprintf("TYPE%d", t), true, 0})
+					}
+				}
+			}
+		}
+	}
 	posName := func(f family, dir, pos int) string {
 		return msgName(baseTypes[f.Name][dir][pos])
 	}
@@ -235,6 +250,14 @@ func TestC30(t *testing.T) {
 		case recvErr == nil:
 			m.Count("outcome:completed", 1)
 			m.Violation(key, detail)
+		case c.tapped && nkR > 0 && ed.op == opDelete && ed.pos == c.fam.L-1:
+			// NEWKEYS itself was deleted: what the receiver then parses as plaintext is the sender's
+			// protected data; with a cipher whose length field is in clear (AES-GCM, EtM MACs) the
+			// first ciphertext byte reads as message number 21 once in 256 times. Indistinguishable
+			// for the receiver from the genuine NEWKEYS followed by garbage; the connection fails
+			// at the next packet (recvErr != nil here). Recorded, not a verdict.
+			m.Count("outcome:failed", 1)
+			m.Count("ciphertext_misread_as_NEWKEYS_after_deleting_NEWKEYS(then failed)", 1)
 		case c.tapped && nkR > 0:
 			m.Count("outcome:kex-accepted-then-failed", 1)
 			m.Violation(key, detail)
@@ -377,7 +400,7 @@ func TestC30(t *testing.T) {
 	nsReps := 1
 	if m.Thorough() {
 		nsFams = []nsFam{{allFamilies[0], []string{"IGNORE", "DEBUG", "UNIMPLEMENTED"}}, {allFamilies[1], []string{"IGNORE", "DEBUG", "UNIMPLEMENTED"}}, {allFamilies[2], []string{"IGNORE", "DEBUG", "UNIMPLEMENTED"}}}
-		nsReps = 2
+		nsReps = 4
 	}
 	roles := []string{"peer-client", "peer-server"}
 	// regular packets the Peer sends in the story: 3 per key exchange (3 exchanges) plus
@@ -387,7 +410,7 @@ func TestC30(t *testing.T) {
 	nsBaseOK := map[string]bool{}
 	for _, role := range roles {
 		for _, nf := range nsFams {
-			pr := runPeer(role, nf.fam.Name, suites[0], injection{pos: -1})
+			pr := runPeer(role, nf.fam.Name, suites[0], false, injection{pos: -1})
 			m.Eval()
 			ok := pr.goErr == nil && pr.goRunErr == nil && pr.peerErr == nil && !pr.stalled && pr.giveUp == "" && len(pr.peer.Kexes) >= 3
 			if !ok {
@@ -441,7 +464,7 @@ func TestC30(t *testing.T) {
 		if err != nil {
 			panic(err)
 		}
-		pr := runPeer(c.role, c.fam.Name, su, injection{pos: c.pos, pkt: pkt})
+		pr := runPeer(c.role, c.fam.Name, su, false, injection{pos: c.pos, pkt: pkt})
 		m.Eval()
 		if pr.giveUp != "" {
 			m.Inconclusive(fmt.Sprintf("non-strict case %d: %s", i, pr.giveUp))
@@ -514,6 +537,72 @@ func TestC30(t *testing.T) {
 	m.Gate("nonstrict_wire_cont:rekey", 100, "Go's packet after a re-exchange NEWKEYS verified on the wire with the continued sequence number only")
 	m.Gate("nonstrict_tap_cont:write", 300, "tap: Go's sequence number keeps counting after a written NEWKEYS")
 	m.Gate("nonstrict_tap_cont:read", 300, "tap: Go's sequence number keeps counting after a read NEWKEYS")
+
+	// ---------------- Part D: the independent Peer WITH strict KEX ----------------
+	// (a) the restart at 0 as an independent implementation counts it: complete sessions with
+	// three key exchanges in both roles; (b) recorded only: IGNORE/DEBUG from a strict peer after
+	// the first key exchange (the property does not say what must happen to them).
+	type sdCase struct {
+		role string
+		fam  family
+		su   suite
+		kind string // "" = no injection
+		pos  int
+	}
+	var sdCases []sdCase
+	for _, role := range roles {
+		for _, nf := range nsFams {
+			for _, su := range suites {
+				sdCases = append(sdCases, sdCase{role, nf.fam, su, "", -1})
+			}
+		}
+		for _, k := range []string{"IGNORE", "DEBUG"} {
+			for pos := 3; pos < storyLen[role]; pos++ {
+				sdCases = append(sdCases, sdCase{role, allFamilies[0], suites[pos%len(suites)], k, pos})
+			}
+		}
+	}
+	m.Cases("strict-peer", len(sdCases), func(i int64, r *rand.Rand) {
+		c := sdCases[i]
+		inj := injection{pos: -1}
+		if c.kind != "" {
+			pkt, err := kindPacket(c.kind, mon.Bytes(r, r.IntN(40)))
+			if err != nil {
+				panic(err)
+			}
+			inj = injection{pos: c.pos, pkt: pkt}
+		}
+		pr := runPeer(c.role, c.fam.Name, c.su, true, inj)
+		m.Eval()
+		if pr.giveUp != "" {
+			m.Inconclusive(fmt.Sprintf("strict peer case %d: %s", i, pr.giveUp))
+			return
+		}
+		ok := pr.goErr == nil && pr.goRunErr == nil && pr.peerErr == nil && !pr.stalled
+		label := fmt.Sprintf("strict-peer %s %s %s", c.role, c.fam.Short, c.su)
+		if c.kind != "" {
+			out := "worked"
+			if !ok {
+				out = "ended-connection"
+			}
+			m.Distinct(fmt.Sprintf("strict-peer %s %s pos%d %s", c.role, c.kind, c.pos, peerPhase(pr)))
+			m.Count("strict_peer_"+c.kind+"_after_first_kex:"+peerPhase(pr)+":"+out, 1)
+			return
+		}
+		m.Distinct(label)
+		analyzePeerSeq(m, label, pr)
+		if ok && len(pr.peer.Kexes) >= 3 && pr.peer.Kexes[0].Strict {
+			m.Count("strict_peer_sessions_ok", 1)
+			m.Count("strict_peer_sessions_ok:"+c.role, 1)
+		} else {
+			// why is for the analysis above to say (a missing restart is a violation there)
+			m.Inconclusive(fmt.Sprintf("%s did not complete: go %v / %v, peer %v at %s, frozen %v, %d exchanges", label, pr.goErr, pr.goRunErr, pr.peerErr, pr.peerStep, pr.stalled, len(pr.peer.Kexes)))
+		}
+	})
+	for _, role := range roles {
+		m.Gate("strict_peer_sessions_ok:"+role, 2*len(quickSuites), "complete sessions (3 key exchanges) between a Go endpoint and the independent peer that restarts its own counters at 0")
+	}
+	m.Gate("strict_peer_wire_zero:rekey", 2*2*2*3, "Go's packet after a re-exchange NEWKEYS verified on the wire with sequence number 0 only (keys computed by the independent peer)")
 }
 
 func trimTo(s string, n int) string {
@@ -583,12 +672,18 @@ func analyzeSeq(m *mon.M, label string, strict bool, tc, ts tapSnap, capt [2][]b
 				idx := nk
 				nk++
 				if ev.Seq == 0 {
-					m.Count("strict_tap_zero:"+rw.name, 1)
+					if ev.Err == "" {
+						m.Count("strict_tap_zero:"+rw.name, 1)
+					}
 					continue
+				}
+				next := "read attempt failed: " + ev.Err
+				if ev.Err == "" {
+					next = msgName(ev.Payload[0])
 				}
 				m.Violation(fmt.Sprintf("strict-seq-not-reset-after-NEWKEYS:tap:%s-%s:%s", side.name, rw.name, kexIndexName(idx)),
 					map[string]any{"connection": label, "endpoint": side.name, "operation": rw.name, "newkeys_index": idx,
-						"sequence_number_of_next_packet": ev.Seq, "next_packet_type": msgName(ev.Payload[0])})
+						"sequence_number_of_next_packet": ev.Seq, "next_packet": next})
 			}
 		}
 	}
@@ -652,10 +747,16 @@ func analyzeSeq(m *mon.M, label string, strict bool, tc, ts tapSnap, capt [2][]b
 	}
 }
 
-// analyzePeerSeq judges the sequence numbers of one session with the
-// non-strict Peer: they must keep counting across every NEWKEYS.
+// analyzePeerSeq judges the sequence numbers of one session between the Peer
+// and a Go endpoint: without strict KEX they must keep counting across every
+// NEWKEYS, with strict KEX (pr.strict) they must restart at 0.
 func analyzePeerSeq(m *mon.M, label string, pr *peerRun) {
 	ts := pr.tap.snap()
+	goSide := "server"
+	goDir := dirS2C // direction written by the Go endpoint
+	if pr.role == "peer-server" {
+		goSide, goDir = "client", dirC2S
+	}
 	for _, rw := range []struct {
 		name string
 		evs  []tapEv
@@ -668,12 +769,25 @@ func analyzePeerSeq(m *mon.M, label string, pr *peerRun) {
 			idx := nk
 			nk++
 			prev := rw.evs[j-1].Seq
+			if pr.strict {
+				switch {
+				case ev.Seq == 0 && ev.Err == "":
+					m.Count("strict_peer_tap_zero:"+rw.name, 1)
+				case ev.Seq != 0:
+					m.Violation(fmt.Sprintf("strict-seq-not-reset-after-NEWKEYS:tap:%s-%s:%s", goSide, rw.name, kexIndexName(idx)),
+						map[string]any{"session": label, "other_end": "independent strict peer", "endpoint": goSide, "operation": rw.name, "newkeys_index": idx,
+							"sequence_number_of_next_packet": ev.Seq, "next_read_error": ev.Err})
+				}
+				continue
+			}
 			switch {
+			case ev.Err != "" && ev.Seq != 0:
+				// the connection ended here; the attempt was made with a continued number
 			case ev.Seq > prev && ev.Seq-prev <= 2: // reads: at most the one injected packet was skipped in between
 				m.Count("nonstrict_tap_cont:"+rw.name, 1)
 			case ev.Seq == 0:
 				m.Violation(fmt.Sprintf("nonstrict-seq-reset-after-NEWKEYS:tap:go-%s:%s", rw.name, kexIndexName(idx)),
-					map[string]any{"session": label, "operation": rw.name, "newkeys_index": idx, "newkeys_sequence_number": prev, "next_sequence_number": ev.Seq})
+					map[string]any{"session": label, "operation": rw.name, "newkeys_index": idx, "newkeys_sequence_number": prev, "next_sequence_number": ev.Seq, "next_read_error": ev.Err})
 			default:
 				m.Inconclusive(fmt.Sprintf("non-strict %s: tap %s sequence number went from %d (NEWKEYS) to %d", label, rw.name, prev, ev.Seq))
 			}
@@ -686,25 +800,30 @@ func analyzePeerSeq(m *mon.M, label string, pr *peerRun) {
 			Cipher: [2]string{k.CipherC2S, k.CipherS2C}, MAC: [2]string{k.MACC2S, k.MACS2C}})
 	}
 	_, _, capt, _ := pr.x.snapshot()
-	goDir := dirS2C // direction written by the Go endpoint
-	if pr.role == "peer-server" {
-		goDir = dirC2S
-	}
 	res := decodeWire(capt[goDir], goDir, keys)
+	mode, good, bad := "nonstrict", "cont", "zero"
+	if pr.strict {
+		mode, good, bad = "strict_peer", "zero", "cont"
+	}
 	for _, f := range res.Follows {
 		switch f.Verdict {
-		case "cont":
-			m.Count("nonstrict_wire_cont:"+kexIndexName(f.Index), 1)
+		case good:
+			m.Count(mode+"_wire_"+good+":"+kexIndexName(f.Index), 1)
 		case "both":
-			m.Count("nonstrict_wire_number_unused_by_cipher", 1)
-		case "zero":
-			m.Violation(fmt.Sprintf("nonstrict-seq-reset-after-NEWKEYS:wire:go-write:%s", kexIndexName(f.Index)),
-				map[string]any{"session": label, "newkeys_index": f.Index, "cipher": f.Cipher, "verifies_with": 0, "with_continued_number": f.ErrCont, "continued_number": f.Cont})
+			m.Count(mode+"_wire_number_unused_by_cipher", 1)
+		case bad:
+			if pr.strict {
+				m.Violation(fmt.Sprintf("strict-seq-not-reset-after-NEWKEYS:wire:%s:%s", dirName[goDir], kexIndexName(f.Index)),
+					map[string]any{"session": label, "other_end": "independent strict peer", "newkeys_index": f.Index, "cipher": f.Cipher, "verifies_with_sequence_number": f.Cont, "with_0": f.ErrZero})
+			} else {
+				m.Violation(fmt.Sprintf("nonstrict-seq-reset-after-NEWKEYS:wire:go-write:%s", kexIndexName(f.Index)),
+					map[string]any{"session": label, "newkeys_index": f.Index, "cipher": f.Cipher, "verifies_with": 0, "with_continued_number": f.ErrCont, "continued_number": f.Cont})
+			}
 		case "none":
-			m.Inconclusive(fmt.Sprintf("non-strict %s: Go's packet after NEWKEYS #%d verifies under neither number (0: %s; %d: %s)", label, f.Index, f.ErrZero, f.Cont, f.ErrCont))
+			m.Inconclusive(fmt.Sprintf("%s %s: Go's packet after NEWKEYS #%d verifies under neither number (0: %s; %d: %s)", mode, label, f.Index, f.ErrZero, f.Cont, f.ErrCont))
 		}
 	}
 	if res.Err != nil && (len(res.Follows) == 0 || res.Follows[len(res.Follows)-1].Verdict != "none") {
-		m.Inconclusive(fmt.Sprintf("non-strict %s: wire decode of Go's direction stopped: %v", label, res.Err))
+		m.Inconclusive(fmt.Sprintf("%s %s: wire decode of Go's direction stopped: %v", mode, label, res.Err))
 	}
 }
